@@ -490,9 +490,13 @@ class ServiceDiscoveryProtocol(SOMEIPDatagramProtocol):
         asyncio.get_event_loop().call_soon(self.announcer.connection_lost, exc)
 
     def reboot_detected(self, addr: _T_SOCKADDR) -> None:
+        # Subscribe entries of the message that revealed the reboot are handled
+        # synchronously in sd_message_received(), so the announcer has to forget the
+        # rebooted peer's subscriptions right now. Offer entries are handled via
+        # call_soon(), so the deferred discovery.reboot_detected() still runs before them
+        self.announcer.reboot_detected(addr)
         asyncio.get_event_loop().call_soon(self.subscriber.reboot_detected, addr)
         asyncio.get_event_loop().call_soon(self.discovery.reboot_detected, addr)
-        asyncio.get_event_loop().call_soon(self.announcer.reboot_detected, addr)
 
     def sd_message_received(
         self, sdhdr: someip.header.SOMEIPSDHeader, addr: _T_SOCKADDR, multicast: bool
